@@ -1,5 +1,6 @@
 import MW.Staking.Facts
 import MW.Staking.Query
+import MW.Staking.Effects
 /-!
 # C15 — Rates posted to the oracle are the post-transaction rates; the oracle is optional
 -/
@@ -110,6 +111,53 @@ theorem withdraw_posts_post_rates (s s' : CState) (env : Env) (info : Info) (b :
   obtain ⟨red, pur, hr, horc⟩ := oracle_msgs_some _ env s.config o orc ho horc
   cases h
   exact ⟨red, pur, hr, by simp [oracleMsgFor, horc]⟩
+
+/-- **every transaction that changes the totals posts the post-transaction rates.**  For every
+message, sender, funds and state: if a successful call changed the staked total or the LST total and
+an oracle is configured, the response contains the `PostRates` message carrying the rates of the state
+the call left behind.  (The four handlers that can change the totals are stake, submission, rewards and
+resume; for every other message the totals provably do not change.) -/
+theorem every_total_change_posts (s s' : CState) (env : Env) (info : Info) (m : ExecMsg) (out : List SubMsg) (o : String)
+    (ho : s.config.proto.oracle = some o) (h : execute s env info m = .ok (s', out))
+    (hch : s'.st.totalNative ≠ s.st.totalNative ∨ s'.st.totalLst ≠ s.st.totalLst) :
+    ∃ red pur, getRates s' = .ok (red, pur) ∧ oracleMsgFor s' env o red pur ∈ out := by
+  cases m <;> simp only [execute] at h
+  case liquidStake mt tn ex =>
+    simp only [bind_ok] at h
+    obtain ⟨pay, _, h⟩ := h
+    obtain ⟨red, pur, h1, h2, _⟩ := stake_posts_post_rates s s' env info pay mt tn ex out o ho h
+    exact ⟨red, pur, h1, h2⟩
+  case submitBatch => exact submit_posts_post_rates s s' env info out o ho h
+  case receiveRewards => exact rewards_posts_post_rates s s' env info out o ho h
+  case resumeContract n l r => exact resume_posts_post_rates s s' env info n l r out o ho h
+  case withdraw b => exact withdraw_posts_post_rates s s' env info b out o ho h
+  case liquidUnstake =>
+    exfalso
+    simp only [bind_ok] at h
+    obtain ⟨a, _, h⟩ := h
+    obtain ⟨_, _, b, _, hs'⟩ := liquidUnstake_eff h
+    subst hs'; simp at hch
+  case addValidator v => exfalso; obtain ⟨_, _, _, _, hs'⟩ := addValidator_eff h; subst hs'; simp at hch
+  case removeValidator v => exfalso; obtain ⟨_, _, _, hs'⟩ := removeValidator_eff h; subst hs'; simp at hch
+  case transferOwnership n => exfalso; obtain ⟨_, o', _, hs'⟩ := transferOwnership_eff h; subst hs'; simp [setOwn] at hch
+  case acceptOwnership => exfalso; obtain ⟨_, o', _, hs'⟩ := acceptOwnership_eff h; subst hs'; simp [setOwn] at hch
+  case revokeOwnershipTransfer => exfalso; obtain ⟨_, o', _, hs'⟩ := revokeOwnership_eff h; subst hs'; simp [setOwn] at hch
+  case updateConfig n p f mo bp =>
+    exfalso; obtain ⟨_, _, _, _, _, _, _, _, _, _, _, _, hs'⟩ := updateConfig_eff h; subst hs'; simp at hch
+  case receiveUnstakedTokens b =>
+    exfalso; obtain ⟨_, _, _, _, _, _, _, _, _, _, _, hs'⟩ := receiveUnstaked_eff h; subst hs'; simp at hch
+  case circuitBreaker =>
+    exfalso
+    unfold circuitBreaker at h
+    simp only [bind_ok, pure_ok] at h
+    obtain ⟨_, _, h⟩ := h; cases h; simp at hch
+  case recover pg sel rc =>
+    exfalso; obtain ⟨_, _, _, _, _, _, _, _, _, _, _, _, _, _, hs', _⟩ := recover_eff h; subst hs'; simp at hch
+  case feeWithdraw a =>
+    exfalso
+    unfold feeWithdraw at h
+    simp only [bind_ok, pure_ok] at h
+    obtain ⟨_, _, _, _, _, _, h⟩ := h; cases h; simp at hch
 
 /-- the State query reports the same purchase rate -/
 theorem state_query_rate (s : CState) (r : StateResp) (h : queryState s = .ok r) :
